@@ -196,7 +196,7 @@ fn sequential(rng: &mut Rng, first_atom: usize, first_residue: isize, n: usize) 
     let mut pdb = PDB::new();
     let mut model = Model::new(1);
     for k in 0..n {
-        let a = Atom::new(false, first_atom + k, "", *rng.pick(&["N", "CA", "C", "O"]), k as f64 / 8.0, 1.5, -2.25, 1.0, 20.0, "", 0).expect("atom");
+        let a = Atom::new(false, first_atom + k, "", *rng.pick(&["N", "CA", "C", "O"]), (k % 8000) as f64 / 8.0, 1.5, -2.25, 1.0, 20.0, "", 0).expect("atom");
         model.add_atom(a, "A", (first_residue + (k / 2) as isize, None), ("GLY", None));
     }
     pdb.add_model(model);
@@ -205,7 +205,13 @@ fn sequential(rng: &mut Rng, first_atom: usize, first_residue: isize, n: usize) 
 
 fn round_trip(out: &mut Out, pdb: &PDB, wlevel: usize, rlevels: &[usize], label: &str) {
     let orig = file(pdb);
-    let text = write(pdb, wlevel);
+    // the writer itself must not panic on a structure that validation accepts
+    let written = crate::guarded(|| write(pdb, wlevel));
+    out.case("C03", call("writes", vec![y(label), z(wlevel as i128), z(out.len() as i128)]), y(if written.is_some() { "ok" } else { "panic" }), "prop:writer-total", true);
+    let Some(text) = written else {
+        out.count(&format!("writer-panic:{}", crate::LAST_PANIC.with(|p| p.borrow().clone())));
+        return;
+    };
     let n_atoms = pdb.total_atom_count();
     if n_atoms <= 2000 {
         out.case("C03", call("write", vec![z(wlevel as i128), orig.clone()]), Sx::S(text.clone()), "corr:writer-model", n_atoms > 1);
